@@ -161,7 +161,7 @@ def main(argv):
             if f is not None:
                 ran['target_check_first_pass'] = 'caught' if f.get('caught_by') else 'MISSED (check strengthened afterwards)'
         if res and 'checks' in res:
-            ran['command'] = 'tools/seedrun.py seeded/%s %s --checks all  (scratch worktree of /repo + git apply, VERIF_REPO=<scratch>)' % (sid, sid[:3])
+            ran['command'] = 'tools/seedrun.py seeded/%s %s --checks %s  (scratch worktree of /repo + git apply, VERIF_REPO=<scratch>)' % (sid, sid[:3], ','.join(sorted(res['checks'])))
             ran['caught_by'] = res.get('caught_by', [])
             ran['inconclusive'] = res.get('inconclusive', [])
             ran['signatures'] = {c: v['first'].split(' sig=')[-1].split(' n=')[0] for c, v in res['checks'].items() if v.get('first')}
